@@ -209,6 +209,53 @@ def make_fn(L):
                 break
         if t.db.writes or t.db.dels:
             o.viol("C08", "traverse_mutated_db", "a traversal wrote to the database")
+        # ONE long-lived trie object: root_node / traverse / traverse_from read, then a write of each kind (direct, committed batch, aborted
+        # batch), then the same reads again on the same object
+        from ..hexsys import apply_op, BatchCancel
+        from trie import HexaryTrie as _HT
+        for pruning in (False, True):
+            try:
+                tl = restore(snap, logdict=False)
+                if pruning:
+                    tl = _HT(dict(tl.db), tl.root_hash, prune=True, ref_count=tl.regenerate_ref_count())
+                ml = dict(model)
+                tl.root_node
+                ops = sysm.ops[:: max(1, len(sysm.ops) // 3)][:3]
+                for i, op in enumerate(ops + ops[:1]):
+                    how = ("direct", "committed batch", "aborted batch", "direct")[i % 4]
+                    if how == "direct":
+                        apply_op(tl, ml, op)
+                    elif how == "committed batch":
+                        with tl.squash_changes() as b:
+                            apply_op(b, ml, op)
+                    else:
+                        try:
+                            with tl.squash_changes() as b:
+                                apply_op(b, dict(ml), op)
+                                raise BatchCancel()
+                        except BatchCancel:
+                            pass
+                    o.evals += 1
+                    got, _ = observe(lambda: tl.root_node)
+                    if got != expected(ml, ()):
+                        o.viol("C08", "root_node_differs", f"root_node of a long-lived trie is not the canonical root node after a {how} write",
+                               call="root_node", how=how, op=op, model=model, pruning=pruning)
+                        break
+                    rn = tl.root_node
+                    for q in paths[:: max(1, len(paths) // 6)]:
+                        o.evals += 1
+                        g1, _ = observe(lambda: tl.traverse(q))
+                        g2, _ = observe(lambda: tl.traverse_from(rn, q))
+                        if g1 != expected(ml, q) or g2 != g1:
+                            o.viol("C08", "traverse_wrong_node" if g1 != expected(ml, q) else "traverse_from_differs",
+                                   f"traverse / traverse_from(root_node, .) on a long-lived trie are wrong after a {how} write", call="traverse", path=q,
+                                   how=how, op=op, model=model, pruning=pruning)
+                            raise StopIteration
+            except StopIteration:
+                pass
+            except Exception as e:  # noqa
+                o.viol("C08", "traverse_raised", f"reads on a long-lived trie around writes raised {type(e).__name__}", call="root_node", exc=repr(e)[:160],
+                       pruning=pruning)
         if positions and not o.samples:
             o.samples.append(dict(model=model, paths=len(paths), node_positions=[q for q, _ in positions]))
         return o
